@@ -22,6 +22,12 @@ import (
 type C04Input struct {
 	Muts     [][]int `json:"muts"`     // per thread: [own state, nested states...]
 	Schedule []int   `json:"schedule"` // thread indexes
+	// prepend stream: Chk[w] = goroutine w calls CanAdd1 (a tick-less check
+	// mutation PREPENDED by PrependMut) instead of Add1. PrependMut has no
+	// schedule point of its own, so such a goroutine is started by its first
+	// schedule entry and parks at pq:entry with the prepend done (= the PEnq
+	// step of a check thread of Conc/QueueLockP.v)
+	Chk []bool `json:"chk,omitempty"`
 }
 
 type C04Obs struct {
@@ -110,9 +116,20 @@ func c04Exec(in *C04Input) *C04Obs {
 	}
 	done := make([]bool, n)
 	parked := make([]bool, n)
+	isChk := func(w int) bool { return w < len(in.Chk) && in.Chk[w] }
+	launched := make([]bool, n)
+	launch := func(w int) {
+		launched[w] = true
+		if isChk(w) {
+			gate.Go(w, func() { results[w] = uint64(m.CanAdd1(names[in.Muts[w][0]], nil)) })
+		} else {
+			gate.Go(w, func() { results[w] = uint64(m.Add1(names[in.Muts[w][0]], nil)) })
+		}
+	}
 	for w := 0; w < n; w++ {
-		w := w
-		gate.Go(w, func() { results[w] = uint64(m.Add1(names[in.Muts[w][0]], nil)) })
+		if !isChk(w) {
+			launch(w)
+		}
 	}
 	// wait until one event arrives from worker w
 	waitFor := func(w int) bool {
@@ -136,13 +153,22 @@ func c04Exec(in *C04Input) *C04Obs {
 		}
 	}
 	for w := 0; w < n; w++ {
-		if !parked[w] && !done[w] {
+		if launched[w] && !parked[w] && !done[w] {
 			if !waitFor(w) {
 				return obs
 			}
 		}
 	}
 	for _, w := range in.Schedule {
+		if w < n && !launched[w] {
+			// a check goroutine: prepend, then park at pq:entry
+			launch(w)
+			obs.Forced++
+			if !waitFor(w) {
+				return obs
+			}
+			continue
+		}
 		if w >= n || done[w] || !parked[w] {
 			continue
 		}
@@ -167,7 +193,7 @@ func c04Exec(in *C04Input) *C04Obs {
 	tr.mu.Unlock()
 	if obs.AllDone {
 		for w := 0; w < n; w++ {
-			if results[w] >= 2 && results[w] != 999999 {
+			if results[w] >= 2 && results[w] != 999999 && !isChk(w) {
 				select {
 				case <-m.WhenQueue(am.Result(results[w])):
 				default:
@@ -211,11 +237,37 @@ func c04Coq(in *C04Input, obs *C04Obs) string {
 	return b.String()
 }
 
+// c04CoqP: a case of the prepend stream for Run/EvalC04p.v
+func c04CoqP(in *C04Input, obs *C04Obs) string {
+	muts := make([]string, len(in.Muts))
+	for i, ms := range in.Muts {
+		muts[i] = fmt.Sprintf("(%d, %s, %s)", ms[0], coqNatList(ms[1:]), coqBool(i < len(in.Chk) && in.Chk[i]))
+	}
+	res := make([]string, len(obs.Results))
+	for i, r := range obs.Results {
+		switch {
+		case r == 999999:
+			res[i] = "QueueLockP.RNone"
+		case r == 0:
+			res[i] = "QueueLockP.RExecuted"
+		case r == 1:
+			res[i] = "QueueLockP.RCanceled"
+		case i < len(in.Chk) && in.Chk[i]:
+			res[i] = "(QueueLockP.RQueued 0)" // the bare constant Queued: no tick
+		default:
+			res[i] = fmt.Sprintf("(QueueLockP.RQueued %d)", r)
+		}
+	}
+	return fmt.Sprintf("{| EvalC04p.k_muts := [%s]; EvalC04p.k_sched := %s; EvalC04p.o_results := [%s]; EvalC04p.o_executed := %s; EvalC04p.o_qlen := %d; EvalC04p.o_all_done := %s |}",
+		strings.Join(muts, "; "), coqNatList(in.Schedule), strings.Join(res, "; "),
+		coqNatList(obs.Executed), obs.QueueLen, coqBool(obs.AllDone))
+}
+
 func init() { register("C04", runC04) }
 
 func runC04(c *Ctx) error {
 	out := NewOut(c.OutDir, "C04",
-		"From Coq Require Import List NArith.\nFrom AMV Require Import Conc.QueueLock.\nFrom AMV Require Import Base.ListSet Model.Schema Model.Resolver Model.Machine Run.EvalHist Run.EvalC04.\nImport ListNotations.",
+		"From Coq Require Import List NArith.\nFrom AMV Require Import Conc.QueueLock.\nFrom AMV Require Conc.QueueLockP Run.EvalC04p.\nFrom AMV Require Import Base.ListSet Model.Schema Model.Resolver Model.Machine Run.EvalHist Run.EvalC04.\nImport ListNotations.",
 		"c04any", "EvalC04.check_all", 200)
 	forcedTotal := 0
 	emit := func(kind string, in *C04Input) {
@@ -234,6 +286,11 @@ func runC04(c *Ctx) error {
 			}
 		}
 		out.Count("queued_results", fmt.Sprint(nq))
+		if len(in.Chk) > 0 {
+			out.Count("check_goroutines", fmt.Sprint(len(in.Chk)))
+			out.Add(kind, in, obs, "C04P ("+c04CoqP(in, obs)+")", len(in.Schedule) == 0, "")
+			return
+		}
 		out.Add(kind, in, obs, "C04G ("+c04Coq(in, obs)+")", len(in.Schedule) == 0, "")
 	}
 	cases, replayOnly := c.loadCases()
@@ -289,6 +346,72 @@ func runC04(c *Ctx) error {
 		}
 	}
 	if !replayOnly {
+		// prepend stream: 1-2 of 2-4 goroutines call CanAdd1 (tick-less, prepended).
+		// Half of the schedules are aimed at the window between the drain loop's
+		// last length check and the release of queueProcessing: a drainer runs
+		// k steps on its own, then a check goroutine prepends and tries the CAS.
+		r := c.Rng
+		n := c.N(200, 8000)
+		for i := 0; i < n; i++ {
+			nt := r.Range(2, 4)
+			in := &C04Input{Chk: make([]bool, nt)}
+			next := nt
+			nchk := r.Range(1, 2)
+			if nchk >= nt {
+				nchk = nt - 1
+			}
+			for _, w := range r.Perm(nt)[:nchk] {
+				in.Chk[w] = true
+			}
+			for w := 0; w < nt; w++ {
+				ms := []int{w}
+				if !in.Chk[w] && r.Chance(25) {
+					ms = append(ms, next)
+					next++
+				}
+				in.Muts = append(in.Muts, ms)
+			}
+			if r.Chance(50) {
+				var drainer, chk int
+				for w := 0; w < nt; w++ {
+					if in.Chk[w] {
+						chk = w
+					}
+				}
+				for {
+					drainer = r.Intn(nt)
+					if !in.Chk[drainer] {
+						break
+					}
+				}
+				for s := r.Range(3, 9); s > 0; s-- {
+					in.Schedule = append(in.Schedule, drainer)
+				}
+				for s := r.Range(1, 4); s > 0; s-- {
+					in.Schedule = append(in.Schedule, chk)
+				}
+				for s := r.Range(0, 6); s > 0; s-- {
+					in.Schedule = append(in.Schedule, drainer)
+				}
+			} else {
+				steps := r.Range(4, 14*nt)
+				cur := r.Intn(nt)
+				for s := 0; s < steps; s++ {
+					if r.Chance(35) {
+						cur = r.Intn(nt)
+					}
+					in.Schedule = append(in.Schedule, cur)
+				}
+			}
+			if r.Chance(85) {
+				for s := 0; s < 30*nt; s++ {
+					in.Schedule = append(in.Schedule, s%nt)
+				}
+			}
+			emit("prepend", in)
+		}
+	}
+	if !replayOnly {
 		// sequential stream: handlers issuing mutations, checks (prepended) and
 		// AddErr while transitions run; every returned queue tick must resolve
 		o := GenOpt{MinStates: 2, MaxStates: 6, AutoPct: 20, MultiPct: 30, MinCalls: 2, MaxCalls: 12,
@@ -315,7 +438,10 @@ func runC04(c *Ctx) error {
 		"state's final handler); every goroutine parks at each verifPoint of queueMutation/processQueue and the scheduler "+
 		"releases one per schedule entry (random schedules with runs, 80% completed by a round-robin tail); observables: "+
 		"per-goroutine Result, order of executed transitions, final QueueLen, open WhenQueue channels; distinct by "+
-		"(input, observation); non-trivial = non-empty schedule",
+		"(input, observation); non-trivial = non-empty schedule; plus a prepend stream: 1-2 of the goroutines call "+
+		"CanAdd1 (tick-less check mutation prepended by PrependMut; started by their first schedule entry, parked at "+
+		"pq:entry), half of the schedules aimed at the window between the drain loop's last length check and the release "+
+		"(model Conc/QueueLockP.v, theorem P.no_strand_p)",
 		map[string]any{"forced_schedule_steps": forcedTotal})
 	return nil
 }
